@@ -122,6 +122,38 @@ func longValueTampering(rep *Report, key []byte) {
 	}
 }
 
+// neighbouringKeys: "a different key" is ANY other key - each of the 256 keys that differ from the right one in a single
+// bit is refused, for adding under one and reading under the other in both directions.
+func neighbouringKeys(rep *Report, key []byte) {
+	m := meta.NewMeta()
+	if err := m.AddEncrypted("s", []byte("a secret that only the right key opens"), key); err != nil {
+		return
+	}
+	for bit := 0; bit < 256; bit++ {
+		other := append([]byte{}, key...)
+		other[bit/8] ^= 1 << uint(bit%8)
+		allZero := true
+		for _, b := range other {
+			allZero = allZero && b == 0
+		}
+		if allZero {
+			continue
+		}
+		rep.Evaluations++
+		cs := map[string]any{"key_differs_in_bit": bit, "byte": bit / 8}
+		if got, err := m.GetEncryptedBytes("s", other); err == nil {
+			rep.violation(cs, "an error", fmt.Sprintf("%d bytes of data", len(got)), "a key that differs from the right one in a single bit opens the value")
+			continue
+		}
+		m2 := meta.NewMeta()
+		if err := m2.AddEncrypted("s", "written under the neighbouring key", other); err == nil {
+			if got, err := m2.GetEncryptedString("s", key); err == nil {
+				rep.violation(cs, "an error", fmt.Sprintf("%q", got), "a value written under a neighbouring key opens with this one")
+			}
+		}
+	}
+}
+
 type metaCase struct {
 	Carrier string `json:"carrier"`
 	API     string `json:"api"`
@@ -555,6 +587,10 @@ func init() {
 		}
 		entropyFailure(rep, good["good1"])
 		longValueTampering(rep, good["good1"])
+		neighbouringKeys(rep, good["good1"])
+		for _, k := range structuredKeys[:3] {
+			neighbouringKeys(rep, k)
+		}
 		return nil
 	}
 
